@@ -15,7 +15,7 @@ func init() {
 	Registry["C04"] = c04
 	Metas["C04"] = Meta{Level: "other", NeedCG: true, Technique: "static analysis: who-may-write tables, edge-dominance (guard chains) on the SSA CFG of the round state machine, finite-domain decision tables of the sibling step guards",
 		Explain: "Static analysis of the PBFT round state machine (gemmill/consensus/pbft/state.go). Decided on every path of the code: (R1) which functions may write the lock fields and with which class of value; (R2) a lock/relock store is edge-dominated by a +2/3 prevote majority of the SAME round for that block and, for a new lock, by block validation; (R3) every precommit for a non-nil block carries the hash of that round's majority; (R4) prevote/propose take the locked block first; (R5) unlock only under a later polka for something else; (R6) commit entry only under a +2/3 precommit majority for a non-nil block; (R7) the entry guards of the seven enterX step functions, extracted as decision tables over (height, round, step) orderings and compared with the spec template. NOT decided: which votes arrive at run time, equivalence with the protocol automaton over schedules — the check decides these structural clauses and not the behaviour.",
-		Assume: []string{"TwoThirdsMajority reports a +2/3 majority correctly (decided separately under C15/C01)", "cs.doPrevote/decideProposal/setProposal hold their defaults (checked: only assignments in non-test code)"},
+		Assume:  []string{"TwoThirdsMajority reports a +2/3 majority correctly (decided separately under C15/C01)", "cs.doPrevote/decideProposal/setProposal hold their defaults (checked: only assignments in non-test code)"},
 	}
 }
 
@@ -41,7 +41,7 @@ func c04(c *Ctx) {
 	walSkipRule(c, "R8")
 	replayAllLinesRule(c, "R9")
 	fastSyncHandoverRule(c, "R10")
-	shared(c, "C15", c15R1)
+	shared(c, "C15", c15R1, func(c *Ctx) { verifyCommitRule(c, "R7") })
 	shared(c, "C01", func(c *Ctx) { quorumRule(c, "R1") })
 	shared(c, "C16", func(c *Ctx) { valsetCacheRule(c, "R2") })
 }
